@@ -200,6 +200,14 @@ pub fn generate(check: &str, tier: &str, seed: u64, run: u64) -> Case {
         },
         _ => panic!("unknown check {}", check),
     };
+    let mut program = program;
+    // FAULT: caught panics (own random stream: the programs themselves stay as they are)
+    if matches!(check, "C01" | "C04" | "C05" | "C07" | "C08" | "C09" | "C10" | "C06" | "C16") {
+        let mut frng = Rng::derive(seed, check, run, "caught");
+        if frng.chance(1, 5) {
+            crate::gen::inject_caught(&mut program, &mut frng);
+        }
+    }
     Case { program, config }
 }
 
@@ -215,6 +223,17 @@ pub fn gen_litmus_any(rng: &mut Rng, thorough: bool) -> Program {
 
 /// Judge a case (pure function of its arguments and of the loom tree).
 pub fn judge(check: &str, tier: &str, case: &Case, seed: u64, run: u64) -> CaseReport {
+    crate::interp::CAUGHT_FIRED.with(|c| c.set(0));
+    let mut rep = judge_inner(check, tier, case, seed, run);
+    let placed = case.program.threads.iter().flatten().filter(|o| o.is_caught()).count() as u64;
+    if placed > 0 {
+        rep.extra.insert("fault_caught_panic_configured".into(), placed);
+        rep.extra.insert("fault_caught_panic_fired".into(), crate::interp::CAUGHT_FIRED.with(|c| c.get()));
+    }
+    rep
+}
+
+fn judge_inner(check: &str, tier: &str, case: &Case, seed: u64, run: u64) -> CaseReport {
     let mut rng = Rng::derive(seed, check, run, "walk");
     let thorough = tier == "thorough";
     let mut opts = CaseOpts::default();
@@ -387,20 +406,14 @@ pub fn judge(check: &str, tier: &str, case: &Case, seed: u64, run: u64) -> CaseR
 /// not demanded of programs that yield outside the C18 family (validity still is).
 pub fn has_yield(p: &Program) -> bool {
     p.threads.iter().flatten().any(|op| {
-        let mut o = op;
-        while let Op::If { then, .. } = o {
-            o = then;
-        }
+        let o = op.inner();
         matches!(o, Op::Yield)
     })
 }
 
 pub fn has_try_acquire(p: &Program) -> bool {
     p.threads.iter().flatten().any(|op| {
-        let mut o = op;
-        while let Op::If { then, .. } = o {
-            o = then;
-        }
+        let o = op.inner();
         matches!(o, Op::TryLock { .. } | Op::TryRLock { .. } | Op::TryWLock { .. })
     })
 }
@@ -411,11 +424,7 @@ pub fn has_try_acquire(p: &Program) -> bool {
 /// more than once and is unparked more than once (an unpark is absorbed while another is pending).
 pub fn has_unpark_order_sensitivity(p: &Program) -> bool {
     fn strip(op: &Op) -> &Op {
-        let mut o = op;
-        while let Op::If { then, .. } = o {
-            o = then;
-        }
-        o
+        op.inner()
     }
     for t in 0..p.threads.len() {
         let parks = p.threads[t].iter().filter(|o| matches!(strip(o), Op::Park)).count();
@@ -436,10 +445,7 @@ pub fn has_sc_fence_order_sensitivity(p: &Program) -> bool {
         .iter()
         .filter(|t| {
             t.iter().any(|op| {
-                let mut o = op;
-                while let Op::If { then, .. } = o {
-                    o = then;
-                }
+                let o = op.inner();
                 matches!(o, Op::Fence { o: MO::Sc })
             })
         })
